@@ -30,6 +30,12 @@ CLAIMED['C17'] = ('Lean proof (each op once, linear trace, no history for untrac
          'Theorems for graphs of any depth: the traversal covers exactly the reachable nodes once, each grad_fn is called exactly once, at most 3 engine events per reachable node, backward completes; an untracked result (no_grad or no operand requiring grad) holds no operands and no grad_fn. PARTIAL by nature: CPython recursion depth, reference counting and wall time cannot be exhibited by a model; they are observed on the implementation (50 000-op chain, 100 000 untracked updates with weakrefs) and a failure there is reported with that run as the replay.', '6 C17')
 CLAIMED['C19'] = ('Lean proof over the regenerated random-site table and an abstract non-interference theorem + double-run correspondence',
          'Theorems: every call site of the package that can draw randomness or read process-dependent state uses a generator manual_seed seeds (table regenerated from the source every run, decide); every modelled API draws only through seeded generator functions; a run whose steps ignore the environment is determined by the seed. PARTIAL by nature: bit-reproducibility of NumPy/BLAS and allocation layout are runtime behaviour; the check hashes seeded programs (random tensors, layers, init, dropout, shuffled split, training steps, a fan-out graph) repeated in-process and in fresh processes under several PYTHONHASHSEEDs and compares draw signatures with the model.', '6 C19')
+CLAIMED['C01'] = ('Lean proof of the adjoint identity per op over the index-function kernel model + correspondence over the whole argument space',
+         'For transpose, movedim, reshape, flatten, squeeze, unsqueeze, unfold(dimension,size,step), indexing (slices with any step, ellipsis, newaxis, repeated integer lists), neg, clone, add, mul (every broadcasting pattern), sum, mean (tuple dims with negative entries), matmul (batch broadcasting), addmm, concat, stack, unbind: IsAdjoint = whenever forward is accepted backward returns, the gradient has the operand shape, and <F v, g> = <v, B g> for all v, g over any commutative ring; vjp_unique shows this determines the kernel. PARTIAL: pow/rpow/exp/log/sqrt (HasDerivAt over the reals) and max/min (subgradient) are modelled and corresponded only until their theorems land (listed as unproved_ops in the evidence). Per-op generators over shapes of rank 0-4, all dims/tuples/keepdims/index expressions/exponents, non-uniform upstream gradients, malformed arguments compare accept/reject, values and every operand gradient; the failing-input search uses finite differences of the implementation.', '3.1, 6 C01')
+CLAIMED['C10'] = ('Lean proof over the dtype / buffer-shape model + correspondence over op x dtype x upstream dtype',
+         'Theorems: the result dtype rule gives float32 for float32 operands and float64 for float64 operands (independent of rank, so 0-d results included; integer label operands do not matter); a Python scalar operand takes the dtype of the tensor it meets; the store stays aligned; after backward every gradient buffer has exactly the shape of its tensor whatever the kernels returned (buffers are zeros_like / the shape-checked caller gradient and only updated in place). PARTIAL: the float32-vs-float64 value agreement is observed (rel 2e-4), not proved. Every op / nn op / loss reduction / scalar-operator form is run at both dtypes with both upstream dtypes and result / gradient dtypes and shapes are compared.', '6 C10')
+CLAIMED['C11'] = ('Lean proof that model transitions only append / only touch gradient buffers + byte-level snapshots on the implementation',
+         'Theorems: applying an op keeps every existing tensor (data, dtype, graph state) and is repeatable with identical values; backward changes no data, dtype or mode; the root stores the caller gradient as a value; zeroing touches no data (with backward_frame of C04 for unrelated gradients). PARTIAL by nature: aliasing between NumPy arrays cannot be expressed in a value-level model; the check snapshots tobytes() of every operand, target, base array, unrelated tensor/gradient and caller gradient around every forward and backward (aliased view operands, reused operands, repeated backward through one root) and repeats every op bit for bit.', '6 C11')
 PENDING = {}
 ALL = [f'C{i:02d}' for i in range(1, 21)]
 
